@@ -53,6 +53,20 @@ EmitVector ==
      LET txt == KwPerm \o Prefixes[p] \o a
      IN PrintT(ToJson([i |-> txt, e |-> ParseText(txt), tag |-> "C08"]))
 
+\* clauses whose who / permission letters repeat or come in another order (chmod reads them as sets)
+OddWho == << Cp("uu"), Cp("gu"), Cp("au"), Cp("oog"), Cp("aa") >>
+OddPerm == << Cp("rr"), Cp("ww"), Cp("xx"), Cp("wr"), Cp("xwr"), Cp("rwxx"), Cp("xrx") >>
+EmitOdd ==
+  (Mode = "clauses" /\ Len(vSeq) = 1 /\ vSeq[1] <= 45) =>
+    \A w \in 1..(Len(WhoStrs) + Len(OddWho)) : \A o \in 1..3 : \A q \in 1..(Len(PermStrs) + Len(OddPerm)) : \A p \in 1..3 :
+      (w > Len(WhoStrs) \/ q > Len(PermStrs)) /\ ((w + q) % 15 = vSeq[1] % 15) =>
+        LET ws == IF w <= Len(WhoStrs) THEN WhoStrs[w] ELSE OddWho[w - Len(WhoStrs)]
+            ps == IF q <= Len(PermStrs) THEN PermStrs[q] ELSE OddPerm[q - Len(PermStrs)]
+            txt == KwPerm \o Prefixes[p] \o Cp("u+r,") \o ws \o <<Ops[o]>> \o ps
+            txt1 == KwPerm \o Prefixes[p] \o ws \o <<Ops[o]>> \o ps
+        IN /\ PrintT(ToJson([i |-> txt, e |-> ParseText(txt), tag |-> "C08"]))
+           /\ PrintT(ToJson([i |-> txt1, e |-> ParseText(txt1), tag |-> "C08"]))
+
 \* ---- algebraic sanity of the oracle (M) ----
 AllBits == 0..8
 ModeSets == {BitsOf(0), BitsOf(511), BitsOf(292), BitsOf(420), BitsOf(73), BitsOf(448)}
